@@ -275,6 +275,36 @@ func c05(c *core.Ctx) {
 		c.Distinct(gen.HashBytes(wire))
 		c05Judge(c, wire, "arbitrary", false)
 	})
+	// (a2) messages whose raw size is at the very top of what the 16-bit length field allows
+	c.SectionSerial("maximum-size", 6, func(i int64, r *gen.Rand) {
+		// raw length after FINGERPRINT: 65552 - 4*i  (65552 is the maximum: 20 + 65532)
+		total := 65552 - 4*int(i)
+		valueLen := total - 20 - 8 - 4
+		m := new(stun.Message)
+		_ = m.Build(stun.BindingRequest, stun.NewTransactionIDSetter(r.TID()), stun.RawAttribute{Type: stun.AttrData, Value: r.Bytes(valueLen)})
+		pre := append([]byte(nil), m.Raw...)
+		l := len(pre) - 20 + 8
+		pre[2], pre[3] = byte(l>>8), byte(l)
+		want := ref.FingerprintValue(pre)
+		_ = stun.Fingerprint.AddTo(m)
+		c.Eval(1)
+		tail := m.Raw[len(m.Raw)-4:]
+		got := uint32(tail[0])<<24 | uint32(tail[1])<<16 | uint32(tail[2])<<8 | uint32(tail[3])
+		if len(m.Raw) != total || got != want {
+			c.Violate("appended-value", "appended-value:maximum-size", map[string]interface{}{"raw_len": len(m.Raw), "want_len": total, "got": fmt.Sprintf("%08x", got), "want": fmt.Sprintf("%08x", want)})
+
+			return
+		}
+		wire := append([]byte(nil), m.Raw...)
+		c05Judge(c, wire, "maximum-size", false)
+		// flips in the last covered bytes and in the first ones
+		for _, pos := range []int{len(wire) - 9, len(wire) - 10, len(wire) - 25, 20, 0, len(wire) / 2} {
+			f := append([]byte(nil), wire...)
+			f[pos] ^= 0x10
+			c05Judge(c, f, "maximum-size-bitflip", true)
+		}
+		c.Distinct(uint64(total) | 6<<50)
+	})
 	// (c2) near misses of the value: bare CRC without the XOR, XOR with neighbouring constants, byte-swapped
 	c.Section("value-near-misses", c.N(300, 100000), func(_ int64, r *gen.Rand) {
 		wire := c05Make(c, r, 60)
